@@ -248,14 +248,37 @@ def inline_local(ix, fl, rf, outer, names):
     return fl.tab.rewrite(rf, f)
 
 
-def need(R, oid, rule, site, stmt, f, patterns, binding=None, loc=None):
+def need(R, oid, rule, site, stmt, f, patterns, binding=None, loc=None, under=None):
     """Obligation: every structural pattern (metavariables V_*) occurs in
-    function f with one consistent naming.  Returns the binding or None."""
-    from .pattern import find
-    b, missing = find(f.node, patterns, binding)
-    R.check(oid, rule, site, stmt, b is not None, key='; '.join(m[:80] for m in missing),
-            detail='no statement of the expected shape: %s' % missing, loc=loc or f.loc())
-    return b
+    function f with one consistent naming, and none of the matched statements
+    sits under an `if` the pattern does not itself contain - unless the test
+    matches one of the patterns in `under` (None: any enclosing condition is a
+    deviation; '*': not checked).  Returns the binding or None."""
+    from .pattern import find, parse_pattern, _match
+    nodes = []
+    b, missing = find(f.node, patterns, binding, nodes_out=nodes)
+    cond = []
+    if b is not None and under != '*':
+        parent = {}
+        for p in ast.walk(f.node):
+            for c in ast.iter_child_nodes(p):
+                parent[c] = p
+        allowed = [parse_pattern(u)[1] for u in (under or [])]
+        for n in nodes:
+            c = n
+            while c in parent and c is not f.node:
+                p = parent[c]
+                if isinstance(p, (ast.If, ast.While)) and c is not p.test and not any(
+                        _match(a, p.test, dict(b)) is not None for a in allowed):
+                    neg = isinstance(p, ast.If) and c in p.orelse
+                    cond.append('%s runs only if %s%s' % (ast.unparse(n).split('\n')[0][:50],
+                                                         'not ' if neg else '', ast.unparse(p.test)[:60]))
+                c = p
+    ok = b is not None and not cond
+    R.check(oid, rule, site, stmt, ok, key='; '.join(m[:80] for m in (missing or cond)),
+            detail=('no statement of the expected shape: %s' % missing) if b is None else
+            ('matched, but conditional: %s' % cond), loc=loc or f.loc())
+    return b if ok else None
 
 
 def conditions(fl, e, allow=()):
